@@ -56,12 +56,20 @@ type consEnv struct {
 	routines sync.WaitGroup
 	dead     map[p2p.ID]*int32 // per peer: number of its routines that have ended
 
-	before map[string]int
-	closed bool
+	before   map[string]int
+	closed   bool
+	waitSync bool
+	gate     *gateWAL
 }
 
 func newConsEnv(t failer, nVals, nBlocks, nodeVal int, initialHeight int64) *consEnv {
-	e := &consEnv{t: t, nVals: nVals, nodeVal: nodeVal, dead: map[p2p.ID]*int32{}}
+	return newConsEnvOpt(t, nVals, nBlocks, nodeVal, initialHeight, false)
+}
+
+// newConsEnvOpt: waitSync = the node is still block/state syncing — the consensus reactor is registered and running
+// (it tracks peers and answers on the state channel) but the state machine has not been started.
+func newConsEnvOpt(t failer, nVals, nBlocks, nodeVal int, initialHeight int64, waitSync bool) *consEnv {
+	e := &consEnv{t: t, nVals: nVals, nodeVal: nodeVal, dead: map[p2p.ID]*int32{}, waitSync: waitSync}
 	e.before, _ = goroutineSummary()
 	e.dir = tmpDir(t, "c17-cons-")
 	ch, err := lib.NewChain(lib.ChainSpec{Keys: seqInts(nVals), Powers: equalPowers(nVals, 10), InitialHeight: initialHeight})
@@ -96,7 +104,7 @@ func newConsEnv(t failer, nVals, nBlocks, nodeVal int, initialHeight int64) *con
 	}
 	e.ticker = consensus.NewVerifTicker()
 	e.cs.SetTimeoutTicker(e.ticker)
-	e.conR = consensus.NewReactor(e.cs, false)
+	e.conR = consensus.NewReactor(e.cs, waitSync)
 	e.conR.SetLogger(nopLogger)
 	e.conR.SetEventBus(e.bus)
 	e.sw = newSwitch()
@@ -258,6 +266,9 @@ func receiveRoutineGID() int64 {
 // routine itself and this harness puts anything into those queues, so "parked" is stable until the harness acts.
 // False if the receive routine has died (CONSENSUS FAILURE).
 func (e *consEnv) barrier() bool {
+	if e.waitSync {
+		return true // no state machine running: nothing is queued for it (the reactor drops data/vote traffic)
+	}
 	cal.reset()
 	deadline := time.Now().Add(receiveWait)
 	for i := 0; ; i++ {
@@ -283,6 +294,9 @@ func (e *consEnv) barrier() bool {
 
 // fireTimeout lets the currently armed timeout fire (if any).
 func (e *consEnv) fireTimeout() bool {
+	if e.waitSync {
+		return false
+	}
 	ti, ok := e.ticker.Take()
 	if !ok {
 		return false
@@ -355,6 +369,9 @@ func (e *consEnv) close() {
 		return
 	}
 	e.closed = true
+	if e.gate != nil {
+		e.gate.open()
+	}
 	for _, p := range e.sw.Peers().List() {
 		e.sw.StopPeerGracefully(p)
 	}
@@ -557,3 +574,46 @@ func (e *consEnv) drive(state string) {
 }
 
 var _ = cstypes.RoundStepPropose
+
+// ---- a slow disk: the write-ahead log the state machine writes every input to before handling it ------------------
+
+// gateWAL wraps the node's real WAL; while the gate is shut every Write/WriteSync waits (a disk that does not answer),
+// so the state machine stops taking input off its queues WITHOUT holding any of its locks.
+type gateWAL struct {
+	consensus.WAL
+	mu   sync.Mutex
+	gate chan struct{} // closed = open
+}
+
+func (w *gateWAL) wait() {
+	w.mu.Lock()
+	g := w.gate
+	w.mu.Unlock()
+	<-g
+}
+func (w *gateWAL) Write(m consensus.WALMessage) error     { w.wait(); return w.WAL.Write(m) }
+func (w *gateWAL) WriteSync(m consensus.WALMessage) error { w.wait(); return w.WAL.WriteSync(m) }
+
+func (w *gateWAL) shut() {
+	w.mu.Lock()
+	w.gate = make(chan struct{})
+	w.mu.Unlock()
+}
+func (w *gateWAL) open() {
+	w.mu.Lock()
+	select {
+	case <-w.gate:
+	default:
+		close(w.gate)
+	}
+	w.mu.Unlock()
+}
+
+// installGate puts the gate (open) in front of the node's WAL. Call at a barrier (receive routine parked).
+func (e *consEnv) installGate() *gateWAL {
+	open := make(chan struct{})
+	close(open)
+	e.gate = &gateWAL{WAL: e.cs.VerifWAL(), gate: open}
+	e.cs.VerifSetWAL(e.gate)
+	return e.gate
+}
